@@ -556,3 +556,25 @@ package jd
 //@   ensures_bounded ret0 != 1
 //@   ensures_bounded ret0 != 2 && ret0 != 3
 //@   carries C08
+
+// Process-level stand-ins for the CLI (C14 / C13): the verifier builds both binaries from the
+// working tree and exports their paths before running these.
+//@ contract verifCLICheck
+//@   bounded
+//@   needs_cli
+//@   cap 150 4000
+//@   universe a verifNodes(0)
+//@   universe b verifNodes(0)
+//@   universe fi []int{0, 1, 2, 3, 4, 5, 6, 7, 8}
+//@   requires validNode(a) && validNode(b) && !isVoid(a)
+//@   ensures_bounded ret0 == ""
+//@   carries C14 C05
+
+//@ contract verifCLIMalformed
+//@   bounded
+//@   needs_cli
+//@   cap 176 176
+//@   universe garbage verifGarbage()
+//@   universe mode []int{0, 1, 2, 3, 4, 5, 6, 7}
+//@   ensures_bounded ret0 == ""
+//@   carries C13 C14
